@@ -177,9 +177,9 @@ def c14(ctx):
     g_parse(ctx, acc, 'c14pieces', 'MC_C14', 'CONSTANT MaxLen = %d\nCONSTANT Mode = "pieces"\n' % plen + base + 'INVARIANT EmitSweep\nINVARIANT EmitBraceEdits\nINVARIANT EmitCtl\n', PARSE_KINDS_TREE)
     # random strings up to length 60 (random behaviours of the same machine)
     g_parse(ctx, acc, 'c14sim', 'MC_C14', 'CONSTANT MaxLen = 60\nCONSTANT Mode = "chars"\n' + base, PARSE_KINDS_TREE,
-            extra=['-simulate', 'num=%d' % pick(ctx, 150, 3000), '-depth', '61', '-seed', str(ctx.seed)], workers=1)
+            extra=['-simulate', 'num=%d' % pick(ctx, 150, 1500), '-depth', '61', '-seed', str(ctx.seed)], workers=1, timeout=3000)
     g_parse(ctx, acc, 'c14simp', 'MC_C14', 'CONSTANT MaxLen = 20\nCONSTANT Mode = "pieces"\n' + base, PARSE_KINDS_TREE,
-            extra=['-simulate', 'num=%d' % pick(ctx, 150, 3000), '-depth', '21', '-seed', str(ctx.seed)], workers=1)
+            extra=['-simulate', 'num=%d' % pick(ctx, 150, 1500), '-depth', '21', '-seed', str(ctx.seed)], workers=1, timeout=3000)
     return result('model_checking', acc, True,
                   "all strings up to length %d over the 16-symbol alphabet %%\\{}:pAQnc0178@x and all sequences of up to %d documented directives/escapes/literals, every printable character once after %%, after \\, after %%A %%C %%T, inside %%{}, inside an octal escape and alone, submitted as -printf '<s>' (TLC state graph; InvSegmentation checked in every state), plus random strings to length 60; distinct = vectors with a specified verdict" % (clen, plen),
                   ['oracle: Format.tla FmtParse; 1- and 2-digit octal runs and %{xattr:NAME} with non-alphabetic NAME are unspecified and not judged'])
@@ -237,7 +237,7 @@ def c08_front(ctx, acc):
     if not ctx.quick:
         # (random behaviours: without the emitter attached to the states of depth 1, which every behaviour revisits)
         g_parse(ctx, acc, 'c08sim', 'MC_C08', cfg(['MaxLen = 4', 'Mode = "clauses"', 'Slice = 1'], [i for i in inv if i != 'EmitOdd']), PARSE_KINDS_TREE,
-                extra=['-simulate', 'num=7000', '-depth', '5', '-seed', str(ctx.seed)], workers=1, timeout=3000)
+                extra=['-simulate', 'num=400', '-depth', '5', '-seed', str(ctx.seed)], workers=1, timeout=3000)
     t_parse(ctx, acc, 'c08t', ['--mode', 'perm', '--count', str(pick(ctx, 3000, 30000)), '--seed', str(ctx.seed)], PARSE_KINDS_TREE)
 
 
@@ -277,7 +277,7 @@ def c19(ctx):
     g_tree(ctx, acc, 'c19formats', 'MC_C19', cfg(['MaxSize = 1', 'Mode = "formats"'], ['InvTwoDefs', 'EmitVector']))
     g_tree(ctx, acc, 'c19units', 'MC_C19', cfg(['MaxSize = 1', 'Mode = "units"'], ['InvUnits', 'EmitUnits']))
     g_tree(ctx, acc, 'c19deep', 'MC_C19', cfg(['MaxSize = 40', 'Mode = "trees"'], ['InvTwoDefs', 'EmitVector']),
-           extra=['-simulate', 'num=%d' % pick(ctx, 100, 10000), '-depth', '13', '-seed', str(ctx.seed)], workers=1, timeout=3000)
+           extra=['-simulate', 'num=%d' % pick(ctx, 100, 1000), '-depth', '13', '-seed', str(ctx.seed)], workers=1, timeout=3000)
     # T: random trees with exotic shapes, hostile strings and strings / numbers harvested from the source
     trace = '%s/c19t.ndjson' % ctx.work
     wd = ctx.t.record(['record-tree', '--count', str(pick(ctx, 4000, 60000)), '--seed', str(ctx.seed)], trace)
@@ -406,6 +406,7 @@ def c09(ctx):
     design_check(ctx, acc, 'c09', pick(ctx, 3, 4))
     gt_sem(ctx, acc, 'c09trees', 'c09', pick(ctx, 3, 5), SEM_KINDS)
     gt_sem(ctx, acc, 'c09pairs', 'pairacts', 1, SEM_KINDS, consts='CONSTANT MaxFiles = 60\nCONSTANT Static = FALSE\n')
+    t_sem(ctx, acc, 'c09words', ['--profile', 'words', '--no-warmup'], SEM_KINDS, consts='CONSTANT MaxFiles = 3\nCONSTANT Static = FALSE\n')
     t_sem(ctx, acc, 'c09spine', ['--profile', 'spine', '--no-warmup'] + (['--few'] if ctx.quick else []), SEM_KINDS, consts='CONSTANT MaxFiles = 4\nCONSTANT Static = FALSE\n')
     t_sem(ctx, acc, 'c09rand', ['--count', str(pick(ctx, 300, 15000)), '--seed', str(ctx.seed), '--size', '10', '--profile', 'c09'], SEM_KINDS)
     return tv_result(acc, 'all trees up to %d nodes over {true, false, a name test, print, quit, a file print} and not/and/or/list (exhaustive), plus seeded random trees up to 10 nodes over the same leaves, plus DEEP trees (right-nested groups, rule lists, AND chains, negation chains of 40..240 levels with the only action at the bottom / in front / absent); outputs on files that make the name test true and false compared with FindSem.tla SemTop (implicit -print iff no action node anywhere)' % pick(ctx, 3, 5), [])
@@ -416,10 +417,12 @@ def c10(ctx):
     gt_sem(ctx, acc, 'c10acts', 'acts', pick(ctx, 2, 3), ROUTE_KINDS)
     t_sem(ctx, acc, 'c10rand', ['--count', str(pick(ctx, 200, 10000)), '--seed', str(ctx.seed), '--size', '9', '--profile', 'actions'], ROUTE_KINDS)
     t_sem(ctx, acc, 'c10affix', ['--profile', 'affix', '--no-warmup'], ROUTE_KINDS, consts='CONSTANT MaxFiles = 4\nCONSTANT Static = FALSE\n')
+    t_sem(ctx, acc, 'c10words', ['--profile', 'words', '--no-warmup'], ROUTE_KINDS, consts='CONSTANT MaxFiles = 3\nCONSTANT Static = FALSE\n')
+    t_sem(ctx, acc, 'c10longfmt', ['--profile', 'longfmt', '--no-warmup'] + (['--few'] if ctx.quick else []), ROUTE_KINDS, consts='CONSTANT MaxFiles = 3\nCONSTANT Static = FALSE\n')
     t_sem(ctx, acc, 'c10spine', ['--profile', 'spine', '--no-warmup'] + (['--few'] if ctx.quick else []), ROUTE_KINDS, consts='CONSTANT MaxFiles = 4\nCONSTANT Static = FALSE\n')
     t_sem(ctx, acc, 'c10mid', ['--count', str(pick(ctx, 40, 400)), '--seed', str(ctx.seed + 3), '--profile', 'chain', '--size', '30'], ROUTE_KINDS, consts='CONSTANT MaxFiles = 3\nCONSTANT Static = FALSE\n')
     t_sem(ctx, acc, 'c10chain', ['--count', str(pick(ctx, 4, 40)), '--seed', str(ctx.seed), '--profile', 'chain', '--size', '300'], ROUTE_KINDS, consts='CONSTANT MaxFiles = %d\nCONSTANT Static = FALSE\n' % pick(ctx, 3, 8))
-    return tv_result(acc, 'all multisets of up to %d actions from 12 action kinds (stdout/file x newline/NUL/format, file names from a pool of 3, print-file-fid, quit) as AND chain, OR chain and mixed; seeded random operator trees rich in actions; deep trees (40..240 levels) whose only frame-needing action sits at the bottom or in the first rule; chains with up to 300 resources (destinations and matchers); checked: framed iff NeedsFramed, plain => no table, injective table equal to the required targets, stream decodes into frames whose routed records equal FindSem outputs' % pick(ctx, 2, 3), [])
+    return tv_result(acc, 'all multisets of up to %d actions from 12 action kinds (stdout/file x newline/NUL/format, file names from a pool of 3, print-file-fid, quit) as AND chain, OR chain and mixed; seeded random operator trees rich in actions; deep trees (40..240 levels) whose only frame-needing action sits at the bottom or in the first rule; every string a change introduced into the source and the special names of a Unix system as argument of every string-carrying test and action; formats of 20..129 elements; chains with up to 300 resources (destinations and matchers); checked: framed iff NeedsFramed, plain => no table, injective table equal to the required targets, stream decodes into frames whose routed records equal FindSem outputs' % pick(ctx, 2, 3), [])
 
 
 def c12(ctx):
@@ -447,6 +450,7 @@ def c12(ctx):
     # the constructs as the user writes them: the real parser reads the text, the program (or the refusal) is judged
     # against the tree the SPECIFICATION gives for the text
     omitted('c12texts', gt_sem(ctx, acc, 'c12texts', 'texts', 1, REFUSE_KINDS, consts='CONSTANT MaxFiles = 3\nCONSTANT Static = FALSE\n', emit=('EmitTree', 'EmitTexts')))
+    t_sem(ctx, acc, 'c12words', ['--profile', 'words', '--no-warmup'], REFUSE_KINDS, consts='CONSTANT MaxFiles = 3\nCONSTANT Static = FALSE\n')
     gt_sem(ctx, acc, 'c12compl', 'complement', 1, REFUSE_KINDS, consts='CONSTANT MaxFiles = 3\nCONSTANT Static = FALSE\n')
     gt_sem(ctx, acc, 'c12single', 'single', 1, REFUSE_KINDS, consts='CONSTANT MaxFiles = 3\nCONSTANT Static = FALSE\n')
     omitted('c12rand', t_sem(ctx, acc, 'c12rand', ['--count', str(pick(ctx, 1500, 30000)), '--seed', str(ctx.seed), '--size', '9', '--unsupported', '--no-direct'], REFUSE_KINDS, consts='CONSTANT MaxFiles = 3\nCONSTANT Static = FALSE\n'))
@@ -673,6 +677,13 @@ def c16(ctx):
     for f in wd:
         f['stage'] = 'c16spine'
         acc.failures.append(f)
+    lf = '%s/c16longfmt.ndjson' % ctx.work
+    wd = ctx.t.record(['record-compile', '--profile', 'longfmt', '--no-warmup'] + (['--few'] if ctx.quick else []), lf)
+    for f in wd:
+        f['stage'] = 'c16longfmt'
+        acc.failures.append(f)
+    with open(spine, 'a') as f:
+        f.write(open(lf).read())
     spinerecs = [json.loads(l) for l in open(spine) if l.startswith('{') and '"st":"ok"' in l]
     with open(spine, 'w') as f:
         f.writelines(json.dumps(r) + '\n' for r in spinerecs)
@@ -709,7 +720,7 @@ def c16(ctx):
             raise ctx.t.ToolError('TLC reported: ' + ' | '.join(st['errors'][:3]))
     acc.distinct = nsmall + 2 + len(spinerecs)
     acc.programs = nsmall + 2 + len(spinerecs)
-    return tv_result(acc, 'AND chains of 1..%d printing actions (9 kinds: stdout/file x newline/NUL/format) plus the implicit print, plus two programs with 130 matchers in front of two printers (more than 255 generated identifiers), plus rule lists and AND chains of 48..240 members whose first action alone decides the output mode; for each recorded program the atomic steps of a policy call (lock, write, unlock) are extracted from the real text by SchemeEval; TLC explores every interleaving of %s; checked in every state: no release of an unheld mutex; in every terminal state: ports split into whole records (framed: complete frames with the emitted multiset; plain: concatenation of whole critical-section records); no deadlock; <>AllDone under weak fairness' % (pick(ctx, 2, 3), ', '.join('%d threads x %d calls' % c for c in configs)),
+    return tv_result(acc, 'AND chains of 1..%d printing actions (9 kinds: stdout/file x newline/NUL/format) plus the implicit print, plus two programs with 130 matchers in front of two printers (more than 255 generated identifiers), plus rule lists and AND chains of 48..240 members whose first action alone decides the output mode, and formats of 20..129 (thorough: ..300) elements; for each recorded program the atomic steps of a policy call (lock, write, unlock) are extracted from the real text by SchemeEval; TLC explores every interleaving of %s; checked in every state: no release of an unheld mutex; in every terminal state: ports split into whole records (framed: complete frames with the emitted multiset; plain: concatenation of whole critical-section records); no deadlock; <>AllDone under weak fairness' % (pick(ctx, 2, 3), ', '.join('%d threads x %d calls' % c for c in configs)),
                      ['direct runtime prints (print-relative-path, print-file-fid) are modelled as one atomic write; mixing them with printer output in plain mode is outside what can be decided without the runtime source'], level='model_checking')
 
 def api_validate(ctx, acc, name, trace, kinds, timeout=3000):
